@@ -86,6 +86,9 @@ def check_sweep(project: Project, rep, max_bars=2, sample3=0):
             order = sorted(set(vals))
             seen4.add(tuple(order.index(v) for v in vals))
         todo += sorted(seen4)
+        # one bar many times over: the copy loop of the repeated-bar shortcut runs more than once per level only from the fourth
+        # copy on (the scan pops while it enumerates)
+        todo += [tuple([0, 1] * n_) for n_ in (4, 5, 6, 7)]
     n_ok = 0
     dup_bad = None
     n_dup = 0
